@@ -195,7 +195,7 @@ def flushCore (c : Cfg α) (force : Bool) (s : State α) : State α :=
   itemsPhase c (hdrPhase c (snapPhase c force s))
 
 /-- `write_pvp_array`: with AmpSF the channel's format function gets its scaling and formatted signal writes become possible
-    (this happens before the `item_bytes` guard of `putData`) -/
+    (only after the call has passed every guard, see `pvpBad`) -/
 def markCanReg (c : Cfg α) (s : State α) (i : Nat) : State α :=
   if c.ampSF then { s with el := setEl s.el (c.sigIdx i) { s.el (c.sigIdx i) with canReg := true } } else s
 
@@ -223,9 +223,10 @@ def putChunk (c : Cfg α) (s : State α) (k r0 : Nat) (data : Blk α) : State α
              el := setEl s.el k { e with count := cnt, done := markRows e.done r0 nr,
                                          written := e.written || decide (cnt = it.size) } }
 
-/-- a PVP write is refused before anything happens: closed writer, unknown channel, wrong number of vectors -/
+/-- a PVP write is refused before anything happens: closed writer, unknown channel, wrong number of vectors, and (in memory) a channel
+    whose PVP array has already been handed over (`item_bytes is not None`: the guard precedes the amplitude-scaling hand-off) -/
 def pvpBad (c : Cfg α) (s : State α) (i : Nat) (data : Blk α) : Prop :=
-  s.closed = true ∨ ¬ i < c.nchan ∨ data.len ≠ (c.item i).size
+  s.closed = true ∨ ¬ i < c.nchan ∨ data.len ≠ (c.item i).size ∨ (c.inMem = true ∧ (s.el i).bytes.isSome = true)
 def supBad (c : Cfg α) (s : State α) (j : Nat) (data : Blk α) : Prop :=
   s.closed = true ∨ ¬ j < c.nsup ∨ data.len ≠ (c.item (c.supIdx j)).size
 /-- a signal write is refused: unknown channel, formatted data before the AmpSF is known, closed writer, not whole rows inside the array -/
